@@ -1042,6 +1042,34 @@ def body(R):
                 R.case(True, {"group_by": gb, "merge": mg})
         sc["bound"] += "; %d key sets accepted" % acc
 
+    # ---- 6c. chains of alternation (a listed key inside a listed key inside a listed key ...) in EVERY writing order
+    subc = list(range(0, n2 + 1, 3)) + list(range(n2 + 1, len(ctxs), 2))
+    orderc = subc + subc[::7]
+    rng.shuffle(orderc)
+    sc = R.scope("GroupBy: chains of 3..4 nested listed keys with alternating kinds, every order of writing them",
+                 "all chains '' < p1 < p2 < p3 of key paths over {a, b} (p3 of length 3), kinds alternating from the root "
+                 "(group_by first or merge first), chains of 3 (without p3) and of 4 entries, EVERY permutation of the "
+                 "group_by tuple and of the merge tuple (the partition must not depend on the order in which the keys are "
+                 "listed); filled with every third of the contexts above (%d fills) and compared with the "
+                 "longest-listed-prefix partition" % len(orderc), True)
+    acc = 0
+    for p1 in ("a", "b"):
+        for s2 in ("a", "b"):
+            for s3 in ("a", "b"):
+                chain4 = ["", p1, p1 + "." + s2, p1 + "." + s2 + "." + s3]
+                for chain in (chain4, chain4[:3]):
+                    for first in ("g", "m"):
+                        kinds = [first if i % 2 == 0 else ("m" if first == "g" else "g") for i in range(len(chain))]
+                        gb0 = [k for k, kd in zip(chain, kinds) if kd == "g"]
+                        mg0 = [k for k, kd in zip(chain, kinds) if kd == "m"]
+                        for gb in itertools.permutations(gb0):
+                            for mg in itertools.permutations(mg0):
+                                res = partition_check(R, list(gb), list(mg), ctxs, entries, orderc, replayable_ctxs=False)
+                                if res != "rejected":
+                                    acc += 1
+                                    R.case(True, {"group_by": list(gb), "merge": list(mg)})
+    sc["bound"] += "; %d key sets accepted" % acc
+
     # ---- 7. GroupBy, random key sets over {a, b, c}, random contexts of nesting <= 3 with one-point variations
     n_ks = 5000 if th else 250
     sc = R.scope("GroupBy.fill vs longest-listed-prefix partition, random",
